@@ -86,6 +86,10 @@ for d in sorted(glob.glob(os.path.join(ROOT, "seeded", "C*-*")), key=lambda d: n
         caught = "RETIRED: " + meta["retired"]
     hist = meta.get("history") or []
     if isinstance(hist, str): hist = [hist]
+    # a first-run verdict of "missed" / "no failing input" followed by a recorded 'caught' stage: the check was strengthened
+    later = [h for h in hist if isinstance(h, dict) and h.get("stage") == "caught"]
+    if later and v and not v.get("failing_input"):
+        caught = ("first run: " + caught + "; after strengthening: caught — " + str(later[-1].get("result", ""))[:160])
     allrows.append((name, meta.get("property"), meta.get("summary", ""), meta.get("needs", ""), caught, "; ".join(h if isinstance(h, str) else json.dumps(h) for h in hist)))
 with open(os.path.join(ROOT, "seeded", "README.md"), "w") as f:
     f.write("# Seeded breaking changes\n\nWritten by engineers who saw only the property text; confirmed and run here (see DESIGN.md §9).\n`history` records changes that were missed at first and what was strengthened.\n\n| change | property | what was changed | needs to manifest | `bin/check <ID> quick` on it | history |\n|---|---|---|---|---|---|\n")
